@@ -1,4 +1,5 @@
 #include "evts.h"
+#include "src.h"
 #include "ps.h"
 #include "ctx.h"
 
@@ -105,7 +106,7 @@ _public_ int m_mod_set_batch_timeout(m_mod_t *mod, uint64_t timeout_ns) {
 
     /* If it was already set, remove old timer */
     if (mod->batch.timer.ns != 0) {
-        m_mod_src_deregister_tmr(mod, &mod->batch.timer);
+        deregister_mod_src(mod, M_SRC_TYPE_TMR, &mod->batch.timer, M_SRC_INTERNAL);
     }
     mod->batch.timer.clock_id = CLOCK_MONOTONIC;
     mod->batch.timer.ns = timeout_ns;
